@@ -7,6 +7,7 @@ import (
 	"log/slog"
 	"net"
 	"net/http/httptest"
+	"sort"
 	"strings"
 	"sync"
 	"sync/atomic"
@@ -196,6 +197,159 @@ func c39SessionBig() (stream []byte, bounds []int) {
 	return
 }
 
+// ---- the net.Conn contract of the listener's connection wrapper ----
+//
+// The real handler is given an establish callback of the harness instead of the broker's,
+// so the callback holds the listener's own connection object. Write side: for every size
+// of a boundary set (and every ordered pair of a smaller set) Write must report exactly
+// len(p), nil and the client must receive exactly those bytes ("replies arrive intact"
+// for every write the broker can issue, whatever its size). Read side: for binary
+// messages of size a (optionally followed by an empty binary message) followed by a
+// text message, read through a buffer of size r (smaller than, equal to, larger than
+// a): the bytes returned are exactly the binary messages' bytes, then an error; no
+// byte of the text message is ever returned.
+type c39Contract struct {
+	ts  *httptest.Server
+	url string
+	fn  func(net.Conn)
+}
+
+func c39NewContract() *c39Contract {
+	logger := slog.New(slog.NewTextHandler(io.Discard, &slog.HandlerOptions{Level: slog.Level(100)}))
+	l := listeners.NewWebsocket(listeners.Config{ID: "wsc", Address: "127.0.0.1:0"})
+	if err := l.Init(logger); err != nil {
+		panic(err)
+	}
+	k := &c39Contract{}
+	k.ts = httptest.NewServer(l.VerifHandler(func(id string, c net.Conn) error { k.fn(c); return nil }))
+	k.url = "ws" + strings.TrimPrefix(k.ts.URL, "http")
+	return k
+}
+
+func c39Pattern(n, salt int) []byte {
+	b := make([]byte, n)
+	for i := range b {
+		b[i] = byte((i*7 + salt*31 + i/251) % 251)
+	}
+	return b
+}
+
+// writeCase: the server side writes the given sizes; returns "" or the first discrepancy.
+func (k *c39Contract) writeCase(sizes []int) string {
+	type wr struct {
+		n   int
+		err error
+	}
+	res := make(chan []wr, 1)
+	var want []byte
+	k.fn = func(c net.Conn) {
+		var out []wr
+		for i, n := range sizes {
+			got, err := c.Write(c39Pattern(n, i))
+			out = append(out, wr{got, err})
+		}
+		res <- out
+	}
+	for i, n := range sizes {
+		want = append(want, c39Pattern(n, i)...)
+	}
+	d := websocket.Dialer{Subprotocols: []string{"mqtt"}}
+	c, _, err := d.Dial(k.url, nil)
+	if err != nil {
+		return "internal: dial: " + err.Error()
+	}
+	defer c.Close()
+	var got []byte
+	c.SetReadDeadline(time.Now().Add(60 * time.Second))
+	for {
+		t, b, err := c.ReadMessage()
+		if err != nil {
+			break
+		}
+		if t != websocket.BinaryMessage {
+			return fmt.Sprintf("a non-binary message (type %d) was sent", t)
+		}
+		got = append(got, b...)
+	}
+	out := <-res
+	for i, w := range out {
+		if w.err != nil || w.n != sizes[i] {
+			return fmt.Sprintf("Write of %d bytes returned (%d, %v)", sizes[i], w.n, w.err)
+		}
+	}
+	if !bytes.Equal(got, want) {
+		return fmt.Sprintf("client received %d bytes, %d were written; first difference at %d", len(got), len(want), c39FirstDiff(got, want))
+	}
+	return ""
+}
+
+func c39FirstDiff(a, b []byte) int {
+	for i := 0; i < len(a) && i < len(b); i++ {
+		if a[i] != b[i] {
+			return i
+		}
+	}
+	if len(a) < len(b) {
+		return len(a)
+	}
+	return len(b)
+}
+
+// readCase: the client sends msgs; the server side reads through a buffer of r bytes until
+// an error. Returns "" or the discrepancy.
+func (k *c39Contract) readCase(msgs []c39Msg, r int) string {
+	type rd struct {
+		data  []byte
+		reads int
+	}
+	res := make(chan rd, 1)
+	k.fn = func(c net.Conn) {
+		var out rd
+		buf := make([]byte, r)
+		c.SetReadDeadline(time.Now().Add(60 * time.Second))
+		for out.reads < 100000 {
+			n, err := c.Read(buf)
+			out.reads++
+			out.data = append(out.data, buf[:n]...)
+			if err != nil {
+				break
+			}
+		}
+		res <- out
+	}
+	var want []byte
+	sawText := false
+	for _, m := range msgs {
+		if m.Text {
+			sawText = true
+		}
+		if !sawText {
+			want = append(want, m.Data...)
+		}
+	}
+	d := websocket.Dialer{Subprotocols: []string{"mqtt"}}
+	c, _, err := d.Dial(k.url, nil)
+	if err != nil {
+		return "internal: dial: " + err.Error()
+	}
+	defer c.Close()
+	for _, m := range msgs {
+		t := websocket.BinaryMessage
+		if m.Text {
+			t = websocket.TextMessage
+		}
+		if err := c.WriteMessage(t, m.Data); err != nil {
+			break
+		}
+	}
+	_ = c.WriteControl(websocket.CloseMessage, websocket.FormatCloseMessage(websocket.CloseNormalClosure, ""), time.Now().Add(30*time.Second))
+	out := <-res
+	if !bytes.Equal(out.data, want) {
+		return fmt.Sprintf("Read returned %d bytes %.40q, the binary messages before the text message hold %d bytes %.40q", len(out.data), out.data, len(want), want)
+	}
+	return ""
+}
+
 func c39Cuts(n, k int) [][]int {
 	var out [][]int
 	var rec func(start int, cur []int)
@@ -256,6 +410,69 @@ func init() {
 				jobs = append(jobs, job{withText, fmt.Sprintf("cuts=%v text@%d", cut, pos), pos, pre, 0})
 			}
 		}
+		// empty binary message directly followed by a text message, at every position
+		for _, cut := range c39Cuts(limit, 1) {
+			base := mk(cut)
+			for pos := 0; pos <= len(base); pos++ {
+				pre := 0
+				for _, m := range base[:pos] {
+					pre += len(m.Data)
+				}
+				both := append(append(append([]c39Msg{}, base[:pos]...), c39Msg{Data: []byte{}}, c39Msg{Text: true, Data: []byte{0xC0, 0x00}}), base[pos:]...)
+				jobs = append(jobs, job{both, fmt.Sprintf("cuts=%v empty+text(PINGREQ bytes)@%d", cut, pos), pos + 1, pre, 0})
+			}
+		}
+		// the connection wrapper's own Read/Write contract
+		{
+			k := c39NewContract()
+			wsizes := []int{1, 2, 125, 126, 127, 1023, 1024, 2047, 2048, 2049, 4096, 32767, 32768, 32769, 65535, 65536, 65537, 70000, 98304, 98305, 131073}
+			pairs := []int{1, 126, 2048, 32768, 32769, 65537}
+			if !c.Quick() {
+				for n := 1; n <= 300; n++ {
+					wsizes = append(wsizes, n, 32768-150+n, 65536-150+n)
+				}
+			}
+			nc := 0
+			for _, n := range wsizes {
+				if msg := k.writeCase([]int{n}); msg != "" {
+					c.Rep.Add(explore.Violation{Key: "write-contract", Msg: fmt.Sprintf("connection Write of %d bytes: %s", n, msg), Replay: map[string]any{"desc": fmt.Sprintf("write %d", n)}})
+				}
+				nc++
+			}
+			for _, a := range pairs {
+				for _, b := range pairs {
+					if msg := k.writeCase([]int{a, b}); msg != "" {
+						c.Rep.Add(explore.Violation{Key: "write-contract", Msg: fmt.Sprintf("connection Writes of %d then %d bytes: %s", a, b, msg), Replay: map[string]any{"desc": fmt.Sprintf("write %d %d", a, b)}})
+					}
+					nc++
+				}
+			}
+			for _, a := range []int{0, 1, 2, 5, 2048, 3000} {
+				for _, r := range []int{1, 2, a - 1, a, a + 1, 2048, 4096} {
+					if r < 1 {
+						continue
+					}
+					for variant := 0; variant < 4; variant++ {
+						msgs := []c39Msg{{Data: c39Pattern(a, 3)}}
+						switch variant {
+						case 1:
+							msgs = append(msgs, c39Msg{Data: []byte{}})
+						case 2:
+							msgs = append(msgs, c39Msg{Data: c39Pattern(a, 4)})
+						case 3:
+							msgs = append([]c39Msg{{Data: []byte{}}}, msgs...)
+						}
+						msgs = append(msgs, c39Msg{Text: true, Data: []byte{0xC0, 0x00, 0xC0, 0x00}}, c39Msg{Data: []byte{0xC0, 0x00}})
+						if msg := k.readCase(msgs, r); msg != "" {
+							c.Rep.Add(explore.Violation{Key: "read-contract:text-message", Msg: fmt.Sprintf("binary message of %d bytes (variant %d) then a text message, read buffer %d: %s", a, variant, r, msg), Replay: map[string]any{"desc": fmt.Sprintf("read a=%d r=%d variant=%d", a, r, variant)}})
+						}
+						nc++
+					}
+				}
+			}
+			k.ts.Close()
+			c.Rep.Count("connection_contract_cases", int64(nc))
+		}
 		nw := c.Workers
 		servers := make([]*c39Server, nw)
 		for i := range servers {
@@ -295,6 +512,40 @@ func init() {
 			jobs = append(jobs, job{mkB([]int{pos[a]}), fmt.Sprintf("big cuts=[%d]", pos[a]), -1, 0, 1})
 			for b := a + 1; b < len(pos); b++ {
 				jobs = append(jobs, job{mkB([]int{pos[a], pos[b]}), fmt.Sprintf("big cuts=[%d %d]", pos[a], pos[b]), -1, 0, 1})
+			}
+		}
+		// big session: a text message at every position of every segmentation with <=2 cuts at
+		// packet boundaries or 2048 bytes (the broker's read buffer) after a boundary
+		{
+			var bpos []int
+			for _, b := range append([]int{0}, boundsB[:len(boundsB)-1]...) {
+				for _, x := range []int{b, b + 2048} {
+					if x > 0 && x < len(streamB) {
+						bpos = append(bpos, x)
+					}
+				}
+			}
+			sort.Ints(bpos)
+			var segs [][]int
+			segs = append(segs, nil)
+			for a := 0; a < len(bpos); a++ {
+				segs = append(segs, []int{bpos[a]})
+				for b := a + 1; b < len(bpos); b++ {
+					if bpos[b] != bpos[a] {
+						segs = append(segs, []int{bpos[a], bpos[b]})
+					}
+				}
+			}
+			for _, cut := range segs {
+				base := mkB(cut)
+				for p := 0; p <= len(base); p++ {
+					pre := 0
+					for _, m := range base[:p] {
+						pre += len(m.Data)
+					}
+					withText := append(append(append([]c39Msg{}, base[:p]...), c39Msg{Text: true, Data: []byte{0xC0, 0x00}}), base[p:]...)
+					jobs = append(jobs, job{withText, fmt.Sprintf("big cuts=%v text@%d", cut, p), p, pre, 1})
+				}
 			}
 		}
 		wantB := servers[0].runTCP(streamB)
